@@ -43,12 +43,12 @@ type c08Sig struct {
 }
 
 type c08Op struct {
-	K        string   `json:"k"` // create|fund|price|trigger|activate|deactivate|desall|drain|end|transition
+	K        string   `json:"k"` // create|fund|price|trigger|activate|deactivate|desall|drain|end|transition|deposit|withdraw
 	Route    string   `json:"route,omitempty"`
 	Enc      string   `json:"enc,omitempty"` // tss route: "tick" | "fixed" | "" (every second tunnel signs tick-encoded packets)
 	Signals  []c08Sig `json:"signals,omitempty"`
 	Interval uint64   `json:"interval,omitempty"`
-	T        int      `json:"t,omitempty"` // tunnel ref (mod count)
+	T        int      `json:"t,omitempty"` // tunnel ref (mod count; negative: the newest tunnel)
 	Fund     string   `json:"fund,omitempty"`
 	N        int      `json:"n,omitempty"`
 	Sig      int      `json:"sig,omitempty"`
@@ -114,12 +114,40 @@ func genC08(rt *rapid.T) c08Case {
 				Interval: uint64(gen.OneOf(rt, "interval", 3, 3, 10, 30)), Fund: "many"}, c08Op{K: "end", N: 1})
 		}
 	}
+	// a withdrawal that takes the total deposit of an ACTIVE, funded tunnel below the minimum deposit (10uband), followed by
+	// enough time for its interval to elapse: the tunnel is deactivated by the withdrawal and must stay silent. Deposits of
+	// a second account make the crossing withdrawal a partial one / one by somebody who is not the creator.
+	wdAt := -1
+	if gen.Chance(rt, "wd", 4, 10) {
+		wdAt = gen.Range(rt, "wd_at", 0, nops-1)
+	}
+	addWithdrawal := func() {
+		iv := gen.OneOf(rt, "wd_interval", 3, 3, 10, 30)
+		c.Ops = append(c.Ops, c08Op{K: "create", Route: gen.OneOf(rt, "wd_route", "tss", "tss", "tss", "ibc"), Signals: genSignals(), Interval: uint64(iv), Fund: "many"},
+			c08Op{K: "end", N: 1})
+		by := 0
+		if gen.Chance(rt, "wd_second", 1, 2) {
+			c.Ops = append(c.Ops, c08Op{K: "deposit", T: -1, By: 1, N: gen.OneOf(rt, "wd_dep", 1, 5, 9, 10, 25)})
+			if gen.Chance(rt, "wd_end", 1, 2) {
+				c.Ops = append(c.Ops, c08Op{K: "end", N: 1})
+			}
+			by = gen.OneOf(rt, "wd_by", 0, 0, 1)
+		}
+		c.Ops = append(c.Ops, c08Op{K: "withdraw", T: -1, By: by, Fund: gen.OneOf(rt, "wd_kind", "cross", "cross", "cross", "all", "to-min")})
+		if gen.Chance(rt, "wd_trigger", 1, 4) {
+			c.Ops = append(c.Ops, c08Op{K: "trigger", T: -1})
+		}
+		c.Ops = append(c.Ops, c08Op{K: "end", N: 1}, c08Op{K: "end", N: gen.OneOf(rt, "wd_wait", iv-1, iv, iv, 30)}, c08Op{K: "end", N: gen.OneOf(rt, "wd_wait2", 1, 5, 30)})
+	}
 	addCreate()
 	for i := 0; i < nops; i++ {
 		if i == transAt {
 			addTransition()
 		}
-		switch gen.Pick(rt, "op", 5, 8, 34, 5, 4, 3, 7, 2, 32, 1) {
+		if i == wdAt {
+			addWithdrawal()
+		}
+		switch gen.Pick(rt, "op", 5, 8, 34, 5, 4, 3, 7, 2, 32, 1, 2, 3) {
 		case 0:
 			addCreate()
 		case 1:
@@ -142,6 +170,10 @@ func genC08(rt *rapid.T) c08Case {
 			c.Ops = append(c.Ops, c08Op{K: "end", N: gen.OneOf(rt, "dt", 0, 1, 1, 1, 2, 2, 5, 30)})
 		case 9: // a (second) transition proposal at an arbitrary point: refused while one is in progress, late ones may miss their window
 			c.Ops = append(c.Ops, c08Op{K: "transition", N: gen.OneOf(rt, "trans_wait2", 1, 3, 8, 40)})
+		case 10:
+			c.Ops = append(c.Ops, c08Op{K: "deposit", T: gen.Uniform(rt, "t", 4), By: gen.OneOf(rt, "dby", 0, 1, 1), N: gen.OneOf(rt, "dep", 1, 5, 9, 10, 25)})
+		case 11:
+			c.Ops = append(c.Ops, c08Op{K: "withdraw", T: gen.Uniform(rt, "t", 4), By: gen.OneOf(rt, "wby", 0, 0, 1), Fund: gen.OneOf(rt, "wkind", "cross", "cross", "all", "to-min", "one")})
 		}
 	}
 	return c
@@ -162,12 +194,17 @@ type c08Tunnel struct {
 	order                     []string // order of latest prices list
 	lastIntvl                 int64
 	devPacket, intervalPacket bool
-	tick                      bool      // ENCODER_TICK_ABI
-	lastBase, lastRoute       sdk.Coins // fees of the latest packet (the route fee follows the current group's threshold)
-	lastWindow                bool      // the latest packet was produced while a group transition waited for execution
-	lastNSig                  int       // signings (request_signature events) created for the latest packet
-	classedSeq                uint64    // latest packet whose signings have been counted for the class histogram
+	tick                      bool             // ENCODER_TICK_ABI
+	lastBase, lastRoute       sdk.Coins        // fees of the latest packet (the route fee follows the current group's threshold)
+	lastWindow                bool             // the latest packet was produced while a group transition waited for execution
+	lastNSig                  int              // signings (request_signature events) created for the latest packet
+	classedSeq                uint64           // latest packet whose signings have been counted for the class histogram
+	dep                       map[string]int64 // uband deposited per depositor
+	totalDep                  int64
+	byWithdraw                bool // inactive because a withdrawal took the total deposit below the minimum
 }
+
+const c08MinDeposit = 10 // uband
 
 // c08Prop is a governance proposal carrying MsgForceTransitionGroup(second group, execTime).
 type c08Prop struct {
@@ -228,6 +265,9 @@ type c08World struct {
 	packetsAfterTransition          int // TSS packets signed (and paid for at its threshold) by the second group as current group
 	twoSigningsOneFee               int // packets for which two signings were created and a non-zero route fee was charged (once)
 	tickValuesChecked               int
+	withdrawDeactivated             int // withdrawals that took an ACTIVE tunnel below the minimum deposit
+	withdrawKeptActive              int // withdrawals from an active tunnel that left at least the minimum
+	dueAfterWithdrawDeactivation    int // end blocks at which such a deactivated (still funded) tunnel would have been due
 }
 
 func c08ActiveKey(gid tss.GroupID, addr string) string { return fmt.Sprintf("%d/%s", gid, addr) }
@@ -511,6 +551,9 @@ func runC08(c c08Case) *pbt.Verdict {
 		if len(w.tunnels) == 0 {
 			return nil
 		}
+		if i < 0 {
+			return w.tunnels[len(w.tunnels)-1] // kept sorted by id: the newest
+		}
 		return w.tunnels[i%len(w.tunnels)]
 	}
 
@@ -551,7 +594,34 @@ func runC08(c c08Case) *pbt.Verdict {
 				w.bal[tm] = w.bal[tm].Add(sdk.NewInt64Coin("uband", 10))
 			case "activate":
 				if ok {
-					b.tunnel.active = true
+					b.tunnel.active, b.tunnel.byWithdraw = true, false
+				}
+			case "deposit":
+				if ok {
+					n := int64(b.op.N)
+					b.tunnel.dep[b.sender] += n
+					b.tunnel.totalDep += n
+					w.bal[tm] = w.bal[tm].Add(sdk.NewInt64Coin("uband", n))
+				} else {
+					v.Count("deposit_rejected", 1)
+				}
+			case "withdraw":
+				if ok {
+					t, n := b.tunnel, int64(b.op.N)
+					t.dep[b.sender] -= n
+					t.totalDep -= n
+					w.bal[tm] = w.bal[tm].Sub(sdk.NewInt64Coin("uband", n))
+					// a withdrawal that takes the total deposit below the minimum deactivates the tunnel
+					if t.active {
+						if t.totalDep < c08MinDeposit {
+							t.active, t.byWithdraw = false, true
+							w.withdrawDeactivated++
+						} else {
+							w.withdrawKeptActive++
+						}
+					}
+				} else {
+					v.Count("withdraw_rejected", 1)
 				}
 			case "deactivate":
 				if ok {
@@ -675,8 +745,16 @@ func runC08(c c08Case) *pbt.Verdict {
 		for _, t := range w.tunnels {
 			got := outcome[t.id]
 			if !t.active {
+				how := ""
+				if t.byWithdraw {
+					how = " (deactivated by a withdrawal that took its total deposit below the minimum)"
+					base, route := w.feeOf(t)
+					if send, _, _ := w.due(t, now); send && w.bal[t.feePayer].IsAllGTE(base.Add(route...)) {
+						w.dueAfterWithdrawDeactivation++
+					}
+				}
 				if got != "" {
-					v.Failf("C08/inactive-processed", "inactive tunnel %d was processed at end block (%s)", t.id, got)
+					v.Failf("C08/inactive-processed", "inactive tunnel %d%s was processed at end block (%s %s)", t.id, how, got, reason[t.id])
 					return false
 				}
 				continue
@@ -797,7 +875,8 @@ func runC08(c c08Case) *pbt.Verdict {
 				msg, _ = tunneltypes.NewMsgCreateIBCTunnel(sds, op.Interval, dep, w.creator.Addr.String())
 			}
 			tunnelCount++
-			t := &c08Tunnel{id: tunnelCount, route: op.Route, signals: op.Signals, interval: int64(op.Interval), creator: w.creator.Addr.String(), latest: map[string]feedstypes.Price{}}
+			t := &c08Tunnel{id: tunnelCount, route: op.Route, signals: op.Signals, interval: int64(op.Interval), creator: w.creator.Addr.String(), latest: map[string]feedstypes.Price{},
+				dep: map[string]int64{w.creator.Addr.String(): c08MinDeposit}, totalDep: c08MinDeposit}
 			t.tick = tick
 			block = append(block, btx{op: op, bz: ch.SignTx(w.creator, msg), newT: t})
 			// the fee payer address is only known after creation: create, end the block, then fund + activate
@@ -849,6 +928,49 @@ func runC08(c c08Case) *pbt.Verdict {
 				}
 				block = append(block, btx{op: op, sender: m.Addr.String(), des: op.N, bz: ch.SignTx(m, tsstypes.NewMsgSubmitDEs(des, m.Addr.String()))})
 			}
+		case "deposit", "withdraw":
+			t := pick(op.T)
+			if t == nil {
+				v.Count("inapplicable_"+op.K, 1)
+				break
+			}
+			by := w.creator
+			if op.By == 1 {
+				by = w.other
+			}
+			o := op
+			if op.K == "deposit" {
+				if o.N <= 0 {
+					o.N = 1
+				}
+				block = append(block, btx{op: o, tunnel: t, sender: by.Addr.String(),
+					bz: ch.SignTx(by, tunneltypes.NewMsgDepositToTunnel(t.id, sdk.NewCoins(sdk.NewInt64Coin("uband", int64(o.N))), by.Addr.String()))})
+				break
+			}
+			// the amount is taken from the reference's picture of the deposits: cross = leave one below the minimum,
+			// to-min = leave exactly the minimum, all = the depositor's whole deposit, one = 1uband
+			own := t.dep[by.Addr.String()]
+			var n int64
+			switch op.Fund {
+			case "cross":
+				n = t.totalDep - (c08MinDeposit - 1)
+			case "to-min":
+				n = t.totalDep - c08MinDeposit
+			case "one":
+				n = 1
+			default:
+				n = own
+			}
+			if n > own {
+				n = own
+			}
+			if n <= 0 {
+				v.Count("inapplicable_withdraw", 1)
+				break
+			}
+			o.N = int(n)
+			block = append(block, btx{op: o, tunnel: t, sender: by.Addr.String(),
+				bz: ch.SignTx(by, tunneltypes.NewMsgWithdrawFromTunnel(t.id, sdk.NewCoins(sdk.NewInt64Coin("uband", n)), by.Addr.String()))})
 		case "transition":
 			if w.grp2 == nil {
 				v.Count("inapplicable_transition", 1)
@@ -1001,6 +1123,17 @@ func runC08(c c08Case) *pbt.Verdict {
 	if w.packetsAfterTransition > 0 {
 		v.Class("tss-packet-after-transition")
 	}
+	if w.withdrawDeactivated > 0 {
+		v.Class("withdrawal-below-min-deactivates-active-tunnel")
+	}
+	if w.dueAfterWithdrawDeactivation > 0 {
+		v.Class("due-after-withdrawal-deactivation")
+	}
+	if w.withdrawKeptActive > 0 {
+		v.Class("withdrawal-keeps-tunnel-active")
+	}
+	v.Count("withdraw_deactivations", int64(w.withdrawDeactivated))
+	v.Count("due_after_withdraw_deactivation", int64(w.dueAfterWithdrawDeactivation))
 	if w.twoSigningsOneFee > 0 {
 		v.Class("two-signings-one-fee")
 	}
@@ -1063,6 +1196,9 @@ func (w *c08World) compare(now int64) bool {
 				if tn.Sequence != t.seq {
 					v.Failf("C08/sequence", "tunnel %d sequence %d, reference %d", t.id, tn.Sequence, t.seq)
 					return false
+				}
+				if !tn.TotalDeposit.Equal(sdk.NewCoins(sdk.NewInt64Coin("uband", t.totalDep))) {
+					v.Count("total_deposit_differs_from_model", 1)
 				}
 				if tn.IsActive != t.active {
 					v.Failf("C08/active-flag", "tunnel %d active=%v, reference %v", t.id, tn.IsActive, t.active)
